@@ -1698,7 +1698,7 @@ impl Database {
         if has_toast {
             use crate::storage::toast::ToastPointer;
             for row_tuple in &mut rows_to_update {
-                let (_key, _old_value, updated_values, _old_row_values, old_toast_values) =
+                let (row_key, _old_value, updated_values, _old_row_values, old_toast_values) =
                     row_tuple;
 
                 for (_col_idx, old_val) in old_toast_values.iter() {
@@ -1716,17 +1716,12 @@ impl Database {
                     }
                 }
 
-                let pk_value = if let Some(pk_idx) = columns
-                    .iter()
-                    .position(|c| c.has_constraint(&Constraint::PrimaryKey))
-                {
-                    if let OwnedValue::Int(id) = &updated_values[pk_idx] {
-                        *id as u64
-                    } else {
-                        0
-                    }
-                } else {
-                    0
+                // TOAST chunk ids are derived from the row id, as in INSERT: the row key is the
+                // big-endian row id. (The primary-key value is in a different number space and
+                // is 0 for tables without an integer primary key.)
+                let pk_value = match <[u8; 8]>::try_from(row_key.as_slice()) {
+                    Ok(bytes) => u64::from_be_bytes(bytes),
+                    Err(_) => bail!("unexpected row key length {} in UPDATE", row_key.len()),
                 };
 
                 for (col_idx, val) in updated_values.iter_mut().enumerate() {
